@@ -47,9 +47,10 @@ func installModels(e *Engine) {
 			}
 			pos = Ite(live, Ite(special, Add(pos, BV(64, 2)), Add(pos, BV(64, 1))), pos)
 		}
-		res := StrV{Len: pos, B: out}
+		orig := a[0].(StrV)
+		res := StrV{Len: pos, B: out, EscOf: &orig}
 		// the escaped form never contains '/': one '/'-free piece; it may be empty, which ropes allow
-		return StrV{Len: pos, R: &Rope{Toks: [][]StrV{{res}}}}, true
+		return StrV{Len: pos, R: &Rope{Toks: [][]StrV{{res}}}, EscOf: &orig}, true
 	}
 	ropeTok := func(tok []StrV) StrV {
 		r := &Rope{Toks: [][]StrV{tok}}
@@ -243,6 +244,21 @@ func installModels(e *Engine) {
 		}
 	}
 	redirect("github.com/go-openapi/jsonpointer.Unescape", "vrfModelUnescape")
+	slowUnescape := e.intercept["github.com/go-openapi/jsonpointer.Unescape"]
+	e.intercept["github.com/go-openapi/jsonpointer.Unescape"] = func(e *Engine, fr *Frame, c *Ctx, a []Value, cc *ssa.CallCommon) (Value, bool) {
+		s := a[0].(StrV)
+		// fast path (lemma Unescape(Escape(x)) == x, checked by selftest): a single-piece token that is an Escape result
+		if s.EscOf != nil {
+			return *s.EscOf, true
+		}
+		if s.R != nil && len(s.R.Toks) == 1 && len(s.R.Toks[0]) == 1 && s.R.Toks[0][0].EscOf != nil {
+			return *s.R.Toks[0][0].EscOf, true
+		}
+		if cs, ok := s.Concrete(); ok {
+			return StrC(strings.ReplaceAll(strings.ReplaceAll(cs, "~1", "/"), "~0", "~")), true
+		}
+		return slowUnescape(e, fr, c, a, cc)
+	}
 	redirect("github.com/go-openapi/swag.ToGoName", "vrfModelIdent")
 	redirect("github.com/go-openapi/spec.ExpandSchema", "vrfModelExpandSchema")
 	concreteOnly := func(name string, f func(string) string) {
@@ -343,35 +359,55 @@ func installModels(e *Engine) {
 	e.intercept["(*github.com/go-openapi/jsonreference.Ref).GetPointer"] = func(e *Engine, fr *Frame, c *Ctx, a []Value, cc *ssa.CallCommon) (Value, bool) {
 		r := e.load(c, a[0].(PtrV), "GetPointer").(StructV)
 		pt := cc.Signature().Results().At(0).Type().(*types.Pointer).Elem()
-		pv := zero(pt).(StructV)
 		up := r.F[0].(PtrV)
-		var frag Value
-		for _, al := range up.Alts {
-			var f Value = StrC("")
-			if al.Obj != -1 {
-				u := c.S.Heap[al.Obj].Val.(StructV)
-				st := r0type(cc).Field(0).Type().(*types.Pointer).Elem().Underlying().(*types.Struct)
-				for i := 0; i < st.NumFields(); i++ {
-					if st.Field(i).Name() == "Fragment" {
-						f = u.F[i]
-					}
-				}
-			}
-			if frag == nil {
-				frag = f
-			} else {
-				frag = mergeV(al.G, f, frag)
+		st := r0type(cc).Field(0).Type().(*types.Pointer).Elem().Underlying().(*types.Struct)
+		fragIdx := -1
+		for i := 0; i < st.NumFields(); i++ {
+			if st.Field(i).Name() == "Fragment" {
+				fragIdx = i
 			}
 		}
 		fn := e.harnessPkg.Func("vrfModelTokens")
-		tv, nc := e.call(fr, c, fn, []Value{frag}, nil)
-		if nc == nil {
-			return nil, false
+		var alts []PtrAlt
+		for _, al := range up.Alts {
+			if al.G.IsFalse() {
+				continue
+			}
+			var f StrV = StrC("")
+			if al.Obj != -1 {
+				f = c.S.Heap[al.Obj].Val.(StructV).F[fragIdx].(StrV)
+			}
+			var tv Value
+			if f.R != nil && len(f.R.Toks) >= 2 && len(f.R.Toks[0]) == 0 {
+				// the fragment is "/"-joined pieces that contain no "/" themselves: its tokens are the rope tokens
+				el := make([]Value, 0, len(f.R.Toks)-1)
+				for _, tok := range f.R.Toks[1:] {
+					nr := &Rope{Toks: [][]StrV{tok}}
+					t := StrV{Len: ropeLen(nr), R: nr}
+					if len(tok) == 1 {
+						t.EscOf = tok[0].EscOf
+					}
+					el = append(el, t)
+				}
+				id := e.newObj(c, &Obj{Val: ArrayV{el}})
+				tv = SliceV{[]SliceAlt{{TTrue, id, 0, BV(64, uint64(len(el))), len(el)}}}
+			} else {
+				v, nc := e.call(fr, c, fn, []Value{f}, nil)
+				if nc == nil {
+					return nil, false
+				}
+				c.S = nc.S
+				tv = v
+			}
+			pv := zero(pt).(StructV)
+			pv.F[0] = tv
+			id := e.newObj(c, &Obj{Val: pv})
+			alts = append(alts, PtrAlt{G: al.G, Obj: id})
 		}
-		c.S = nc.S
-		pv.F[0] = tv
-		id := e.newObj(c, &Obj{Val: pv})
-		return PtrV{[]PtrAlt{{G: TTrue, Obj: id}}}, true
+		if len(alts) == 1 {
+			alts[0].G = TTrue
+		}
+		return PtrV{alts}, true
 	}
 	// spec.MustCreateRef for fragment-only refs "#"+f
 	e.intercept["github.com/go-openapi/spec.MustCreateRef"] = func(e *Engine, fr *Frame, c *Ctx, a []Value, cc *ssa.CallCommon) (Value, bool) {
